@@ -18,6 +18,9 @@
 #include "givrational.h"
 #include "qfield.h"
 #include "zring.h"
+// C19_NOCXX: the Integer / Rational part only, for the build of gmp++_int_io.C without the GMP C++ streams
+// (-D__GIVARO_GMP_NO_CXX; RecInt and the rings need mpz_class and are left out)
+#ifndef C19_NOCXX
 #include "modular.h"
 #include "modular-balanced.h"
 #include "modular-extended.h"
@@ -27,6 +30,7 @@
 #include "givpoly1.h"
 #include "extension.h"
 #include <recint/recint.h>
+#endif
 
 using namespace Givaro;
 typedef std::vector<std::string> Args;
@@ -219,6 +223,7 @@ static std::string rat_ops(const std::string& op, const Args& a) {
     return "UNKNOWN-OP";
 }
 
+#ifndef C19_NOCXX
 // ---------------------------------------------------------------- residue types from text
 template <class T, class En = void> struct RP { static T parse(const std::string& s) { return (T) parseZ(s); } };
 template <size_t K> struct RP<RecInt::ruint<K> > { static RecInt::ruint<K> parse(const std::string& s) { Integer z = parseZ(s); RecInt::ruint<K> r(z); return r; } };
@@ -483,6 +488,10 @@ static std::string mix_rt(const Args& a) {
 
 typedef std::string (*Fn)(const std::string&, const Args&);
 static std::map<std::string, Fn> rings, polys;
+#endif
+#ifdef C19_NOCXX
+typedef std::string (*Fn)(const std::string&, const Args&);
+#endif
 #define REG(name, ...) rings[name] = &RingIO<__VA_ARGS__ >::go
 #define REGP(name, ...) polys[name] = &PolyIO<__VA_ARGS__ >::go
 
@@ -503,6 +512,7 @@ int main(int argc, char** argv) {
     long budget = argc > 1 ? atol(argv[1]) : 30;
     { struct rlimit rl; rl.rlim_cur = rl.rlim_max = (rlim_t) 6 << 30; setrlimit(RLIMIT_AS, &rl); }   // a garbage size must fail as bad_alloc, not eat the machine
     signal(SIGPROF, on_prof); signal(SIGSEGV, on_crash); signal(SIGBUS, on_crash); signal(SIGFPE, on_crash); signal(SIGABRT, on_crash); signal(SIGILL, on_crash);
+#ifndef C19_NOCXX
     REG("i8_i8", Modular<int8_t, int8_t>);     REG("i8_i16", Modular<int8_t, int16_t>);
     REG("u8_u8", Modular<uint8_t, uint8_t>);   REG("u8_u16", Modular<uint8_t, uint16_t>);
     REG("i16_i32", Modular<int16_t, int32_t>); REG("u16_u32", Modular<uint16_t, uint32_t>);
@@ -524,6 +534,7 @@ int main(int argc, char** argv) {
     REGP("i32_i64", Modular<int32_t, int64_t>); REGP("d_d", Modular<double, double>); REGP("zz", Modular<Integer>);
     REGP("bi32", ModularBalanced<int32_t>); REGP("i8_i16", Modular<int8_t, int16_t>);
     REGP("mg32", Montgomery<int32_t>); REGP("bd", ModularBalanced<double>); REGP("u64_u64", Modular<uint64_t, uint64_t>);
+#endif
 
     std::string line;
     while (std::getline(std::cin, line)) {
@@ -534,6 +545,7 @@ int main(int argc, char** argv) {
         try {
             if (op.compare(0, 4, "int.") == 0) out = int_ops(op, a);
             else if (op.compare(0, 4, "rat.") == 0) out = rat_ops(op, a);
+#ifndef C19_NOCXX
             else if (op.compare(0, 5, "ring.") == 0) {
                 std::string r = a[0]; a.erase(a.begin());
                 out = rings.count(r) ? rings[r](op, a) : "UNKNOWN-RING";
@@ -563,7 +575,9 @@ int main(int argc, char** argv) {
                 int K = atoi(a[0].c_str());
                 out = K == 6 ? RecIO<6>::go(op, a) : K == 7 ? RecIO<7>::go(op, a) : K == 8 ? RecIO<8>::go(op, a)
                     : K == 9 ? RecIO<9>::go(op, a) : K == 10 ? RecIO<10>::go(op, a) : K == 11 ? RecIO<11>::go(op, a) : K == 12 ? RecIO<12>::go(op, a) : "UNSUPPORTED-K";
-            } else out = "UNKNOWN-OP";
+            }
+#endif
+            else out = "UNKNOWN-OP";
         } catch (...) { out = "EXCEPTION"; }
         arm(0);
         std::cout << out << "\n" << std::flush;
